@@ -516,6 +516,18 @@ fn as_checker(obs: &Observation) -> Vec<(String, String)> {
                 ));
             }
         }
+        // the agent level counter sees every command envelope for a lane that exists, whatever the
+        // lane then makes of it
+        if let Some((_, agg_cmds)) = obs.report_totals.get("<aggregate>") {
+            let lanes: Vec<&String> = obs.report_totals.keys().filter(|n| *n != "<aggregate>").collect();
+            let sent: u64 = obs.remotes.iter().map(|r| r.sent.iter().filter(|(_, s)| matches!(s, Step::Cmd(l, _) if lanes.iter().any(|n| *n == l))).count() as u64).sum();
+            if *agg_cmds != sent {
+                out.push((
+                    "as: aggregate command counter differs from the number of command envelopes delivered".to_string(),
+                    format!("agent counted {} commands, {} envelopes were sent to lanes that report", agg_cmds, sent),
+                ));
+            }
+        }
         // events: every event frame a remote received was counted (counting happens per link at
         // the push into the uplink, coalescing can only make frames fewer)
         for (name, (evs, _)) in &obs.report_totals {
@@ -543,6 +555,8 @@ fn as_leg(ctx: &Ctx) {
         vec![sync("m"), act(&["@upd{k:1,v:1}"]), unlink("m")],
         vec![link("s"), act(&["@push(1)", "@push(2)"])],
         vec![link("x"), sync("v"), link("v")],
+        // a command the lane cannot decode (not a map message) and commands after it
+        vec![link("m"), cmd("m", "@update(key:1) 1"), cmd("m", "@bogus"), cmd("m", "@remove(key:1)"), cmd("v", "3")],
     ];
     let mut cfgs = vec![];
     for (i, a) in pool.iter().enumerate() {
